@@ -19,7 +19,7 @@ use util::Rng;
 
 fn run_line(prop: &str, args: &[&str]) -> String {
     match prop {
-        "C02" | "C19" if args[0] == "hist" || args[0] == "cand" => sess::run12(args),
+        "C02" | "C19" | "C11" | "C01" if args[0] == "hist" || args[0] == "cand" => sess::run12(args),
         "C02" => e2e02::run(args),
         "C03" => meta::run03(args),
         "C04" => meta::run04(args),
@@ -27,7 +27,7 @@ fn run_line(prop: &str, args: &[&str]) -> String {
         "C18" => tr::run18(args),
         "C19" => tr19::run19(args),
         "C06" => conn::run(args),
-        "C01" | "C12" | "C02" if args[0] == "sys" => sysloop::op_sys(args[1].parse().unwrap(), args[2].parse().unwrap(), args[3].parse().unwrap(), args[4]),
+        "C01" | "C12" | "C02" | "C11" if args[0] == "sys" => sysloop::op_sys(args[1].parse().unwrap(), args[2].parse().unwrap(), args[3].parse().unwrap(), args[4]),
         "C08" if args[0] == "resp" => tr19::run19(args),
         "C08" | "C09" | "C10" | "C11" | "C20" | "C01" => hand::run(args),
         "C07" if args[0] == "st" => conn::run(args),
